@@ -169,21 +169,41 @@ def k_frame(ctx, d):
             return
     ctx.check("frame.len", len(want) == fr.len(), "len_vs_packed", cell, case)
     ft, props = props_for(d, total)
-    for sfx in (b"", b"\xee" * 5) if d["ftype"] != "fixed" else (b"",):
-        ok, u = attempt(uf.TransferFrame.unpack, want + sfx, ft, props)
-        if not ctx.check("frame.unpack", ok, "raised", cell + "/" + (exc_sig(u) if not ok else ""), case, error=repr(u)):
-            return
-        got = {"hdr": bytes(u.header.pack()).hex(), "iz": None if u.insert_zone is None else bytes(u.insert_zone).hex(), "rule": int(u.tfdf.tfdz_contr_rules),
-               "upid": int(u.tfdf.uslp_ident), "ptr": u.tfdf.fhp_or_lvop, "tfdz": bytes(u.tfdf.tfdz).hex(), "ocf": None if u.op_ctrl_field is None else bytes(u.op_ctrl_field).hex(),
-               "fecf": None if u.fecf is None else bytes(u.fecf).hex()}
-        hl = 4 if trunc else 7 + d["vcf_len"]
-        exp = {"hdr": want[:hl].hex(), "iz": d["iz"], "rule": d["rule"], "upid": d["upid"], "ptr": d["ptr"], "tfdz": d["tfdz"], "ocf": d["ocf"], "fecf": d["fecf"]}
-        if not ctx.check("frame.unpack", got == exp, "field", cell + "/" + ",".join(k for k in exp if got[k] != exp[k]), case,
-                         observed={k: (v[:40] if isinstance(v, str) else v) for k, v in got.items()}, expected={k: (v[:40] if isinstance(v, str) else v) for k, v in exp.items()}):
-            return
-        ctx.check("frame.unpack", u.len() == total, "decoded_len", cell, case, observed=u.len(), expected=total)
-        ok2, rp = attempt(u.pack, truncated=trunc, frame_type=ftype_lib)
-        ctx.check("frame.unpack", ok2 and bytes(rp) == want, "repack", cell, case, observed=bytes(rp)[:80] if ok2 else repr(rp))
+    # the data field on its own, with the optional frame-type cross-check given and left out
+    tf_raw = R.tfdf(d["rule"], d["upid"], bytes.fromhex(d["tfdz"]), d["ptr"])
+    for ft_arg in (ftype_lib, None):
+        ok, tf = attempt(uf.TransferFrameDataField.unpack, tf_raw + b"\x77" * 3, trunc, len(tf_raw), ft_arg)
+        how = "frame_type_given" if ft_arg is not None else "frame_type_none"
+        if ctx.check("frame.tfdf", ok, "unpack_raised", f"{d['ftype']}/{how}/" + (exc_sig(tf) if not ok else ""), case, error=repr(tf)):
+            gt = (int(tf.tfdz_contr_rules), int(tf.uslp_ident), tf.fhp_or_lvop, bytes(tf.tfdz).hex())
+            ctx.check("frame.tfdf", gt == (d["rule"], d["upid"], d["ptr"], d["tfdz"]), "field", f"{d['ftype']}/{how}/rule={d['rule']}", case, observed=(gt[0], gt[1], gt[2], gt[3][:40]))
+            ok2, rp = attempt(lambda: bytes(tf.pack(truncated=trunc, frame_type=ftype_lib)))
+            ctx.check("frame.tfdf", ok2 and rp == tf_raw and tf.len() == len(tf_raw), "repack_or_len", f"{d['ftype']}/{how}", case)
+    # managed parameters that say the same thing in another way: a zone declared absent may still carry a (meaningless) size
+    variants = [("as_built", props)]
+    if d["iz"] is None or d["fecf"] is None:
+        over = {}
+        if d["iz"] is None:
+            over.update(has_insert_zone=False, insert_zone_len=4)
+        if d["fecf"] is None:
+            over.update(has_fecf=False, fecf_len=2)
+        variants.append(("absent_zone_with_size", props_for(d, total, **over)[1]))
+    for pname, props in variants:
+      for sfx in (((b"", b"\xee" * 5) if d["ftype"] != "fixed" else (b"",)) if pname == "as_built" else (b"",)):
+          ok, u = attempt(uf.TransferFrame.unpack, want + sfx, ft, props)
+          if not ctx.check("frame.unpack", ok, "raised", cell + "/" + (exc_sig(u) if not ok else "") + ("" if pname == "as_built" else "/" + pname), case, error=repr(u)):
+              return
+          got = {"hdr": bytes(u.header.pack()).hex(), "iz": None if u.insert_zone is None else bytes(u.insert_zone).hex(), "rule": int(u.tfdf.tfdz_contr_rules),
+                 "upid": int(u.tfdf.uslp_ident), "ptr": u.tfdf.fhp_or_lvop, "tfdz": bytes(u.tfdf.tfdz).hex(), "ocf": None if u.op_ctrl_field is None else bytes(u.op_ctrl_field).hex(),
+                 "fecf": None if u.fecf is None else bytes(u.fecf).hex()}
+          hl = 4 if trunc else 7 + d["vcf_len"]
+          exp = {"hdr": want[:hl].hex(), "iz": d["iz"], "rule": d["rule"], "upid": d["upid"], "ptr": d["ptr"], "tfdz": d["tfdz"], "ocf": d["ocf"], "fecf": d["fecf"]}
+          if not ctx.check("frame.unpack", got == exp, "field", cell + "/" + ",".join(k for k in exp if got[k] != exp[k]), case,
+                           observed={k: (v[:40] if isinstance(v, str) else v) for k, v in got.items()}, expected={k: (v[:40] if isinstance(v, str) else v) for k, v in exp.items()}):
+              return
+          ctx.check("frame.unpack", u.len() == total, "decoded_len", cell, case, observed=u.len(), expected=total)
+          ok2, rp = attempt(u.pack, truncated=trunc, frame_type=ftype_lib)
+          ctx.check("frame.unpack", ok2 and bytes(rp) == want, "repack", cell, case, observed=bytes(rp)[:80] if ok2 else repr(rp))
 
 
 def _part(a, b, d):
@@ -366,6 +386,14 @@ def run(ctx):
                 d["tfdz"] = rand_bytes(r, target - overhead).hex()
                 ctx.table("frame_total_size", target)
                 k_frame(ctx, d)
+    # the largest data field there is: a 65536-octet frame with the shortest header and nothing else around the data field (TFDF of 65529 octets)
+    for ftype in ("fixed", "variable"):
+        for total_ in (65536, 65535, 65534, 65533):
+            d = rand_frame(r, ftype, tfdz_len=0, iz=None, ocf=0, fecf=None)
+            d.update(vcf_len=0, vcf_count=0)
+            d["tfdz"] = rand_bytes(r, total_ - build_frame(d)[2]).hex()
+            ctx.table("largest_tfdf", f"{ftype}/{total_}")
+            k_frame(ctx, d)
     for _ in range(ctx.n(300, 30_000)):
         d = rand_frame(r, tfdz_len=r.choice((1, 2, 17)))
         for kind in ("wrong_fixed_len", "truncated_under_fixed", "rule_of_other_type", "wrong_props_class", "no_room_for_tfdf", "sizes_leave_zero"):
